@@ -137,7 +137,7 @@ enum {
     OP_JSON0, /* core: 0..17 */
     OP_JSON1, OP_JSON2, OP_SET_G1, OP_SET_G2, OP_SET_BAD, OP_SET_UNDEF, OP_SET_UNKW, OP_ALIGN_T1, OP_ALIGN_EMPTY, OP_ALIGN_UNK, OP_ADD_NEW,
     OP_ADD_ALT, OP_ADD_DUP, OP_ADD_ALT_NOBASE, OP_ADD_BADPHONE, OP_ADD_EMPTYWORD, OP_ADD_EMPTYPRON, OP_ADD_NEW_NOUPDATE, OP_ADD_ALT_DUP, OP_LOOKUP,
-    OP_GETCMN0, OP_GETCMN1, OP_SETCMN, OP_REINIT, OP_ADD_MANY, NOPS
+    OP_GETCMN0, OP_GETCMN1, OP_SETCMN, OP_REINIT, OP_ADD_MANY, OP_ADD_ONEPHONE, NOPS
 };
 static const char *const OPNAME[NOPS] = {
     "start", "procA", "end", "hyp", "segwalk", "alignment", "free",
@@ -145,7 +145,7 @@ static const char *const OPNAME[NOPS] = {
     "json0",
     "json1", "json2", "setG1", "setG2", "setBadSyntax", "setUndefRule", "setUnknownWord", "alignT1", "alignEmpty", "alignUnknown", "addNew",
     "addAlt", "addDup", "addAltNoBase", "addBadPhone", "addEmptyWord", "addEmptyPron", "addNewNoUpdate", "addAltTwice", "lookup",
-    "getcmn0", "getcmn1", "setcmn", "reinit", "addMany",
+    "getcmn0", "getcmn1", "setcmn", "reinit", "addMany", "addOnePhone",
 };
 #define N_PROTO 7
 #define N_CORE 18
@@ -162,7 +162,7 @@ typedef struct {
     int nadded;
 } model_t;
 
-static const char *const LOOKUPS[] = { "go", "forward", "ten", "a(2)", "zed", "go(2)", "zed2", "nobase(2)", "bad", "empt", "<sil>" };
+static const char *const LOOKUPS[] = { "go", "forward", "ten", "a(2)", "zed", "go(2)", "zed2", "nobase(2)", "bad", "empt", "<sil>", "xoh" };
 #define NLOOK (int)(sizeof LOOKUPS / sizeof *LOOKUPS)
 #define NMANY 4200
 static const char *const MANYPRON[8] = { "G OW", "T EH N", "M IY", "F AO R", "S T AA P", "W AH N", "T UW", "Z EH D" };
@@ -279,7 +279,7 @@ apply_op(model_t *m, int op, const char *cd)
     if (m->freed)
         return 1;
     /* configuration belongs between utterances */
-    if (m->st == ST_ACTIVE && ((op >= OP_SET_G1 && op <= OP_ADD_ALT_DUP) || op == OP_ADD_MANY))
+    if (m->st == ST_ACTIVE && ((op >= OP_SET_G1 && op <= OP_ADD_ALT_DUP) || op == OP_ADD_MANY || op == OP_ADD_ONEPHONE))
         return 1;
     if (m->st == ST_ACTIVE && op == OP_REINIT)
         return 1;
@@ -418,7 +418,7 @@ apply_op(model_t *m, int op, const char *cd)
     case OP_ADD_NEW:
         return try_add(m, "zed", "Z EH D", 1, model_lookup(m, "zed") == NULL, cd, OPNAME[op]);
     case OP_ADD_NEW_NOUPDATE:
-        return try_add(m, "zed2", "Z EH D", 0, model_lookup(m, "zed2") == NULL, cd, OPNAME[op]);
+        return try_add(m, "zed2", "Z EH D Z", 0, model_lookup(m, "zed2") == NULL, cd, OPNAME[op]);
     case OP_ADD_ALT:
     case OP_ADD_ALT_DUP:
         return try_add(m, "go(2)", "G AH", 1, model_lookup(m, "go(2)") == NULL, cd, OPNAME[op]);
@@ -432,6 +432,8 @@ apply_op(model_t *m, int op, const char *cd)
         return try_add(m, "", "G OW", 1, 0, cd, OPNAME[op]);
     case OP_ADD_EMPTYPRON:
         return try_add(m, "empt", "", 1, 0, cd, OPNAME[op]);
+    case OP_ADD_ONEPHONE:
+        return try_add(m, "xoh", "OW", 1, model_lookup(m, "xoh") == NULL, cd, OPNAME[op]);
     case OP_ADD_MANY: {
         int k;
         for (k = 0; k < NMANY; k++) {
@@ -639,8 +641,10 @@ probe(decoder_t *d, char *dstream, char *dbatch, size_t n, int setgram)
 
 static char REF_STREAM[DIGN], REF_BATCH[DIGN];
 /* C16: a word added at run time must behave exactly like the same word read from the dictionary file */
-static const char *const ADDABLE[3][3] = { { "zed", "Z EH D", "zed" }, { "zed2", "Z EH D", "zed2" }, { "go(2)", "G AH", "go" } }; /* word, phones, JSGF token */
-static char REF_ADDED[3][DIGN];
+#define NADDABLE 4
+static const char *const ADDABLE[NADDABLE][3] = { { "zed", "Z EH D", "zed" }, { "zed2", "Z EH D Z", "zed2" }, { "go(2)", "G AH", "go" },
+                                                 { "xoh", "OW", "xoh" } }; /* word, phones, JSGF token */
+static char REF_ADDED[NADDABLE][DIGN];
 static int
 decode_with_word(decoder_t *d, int k, char *buf, size_t n)
 {
@@ -792,7 +796,7 @@ run_hist(const hist_t *h)
                 if (m.nadded == 1) {
                     int k;
                     static char got[DIGN];
-                    for (k = 0; k < 3; k++)
+                    for (k = 0; k < NADDABLE; k++)
                         if (strcmp(ADDABLE[k][0], m.added[i].word) == 0) {
                             if (decode_with_word(D, k, got, sizeof got) < 0) {
                                 mc_viol("C16/added-word-not-usable", cd, "decoding with the added word %s failed", m.added[i].word);
@@ -947,7 +951,7 @@ main(int argc, char **argv)
     else if (strcmp(set, "dict") == 0) {
         /* dictionary operations plus what is needed to use the words */
         static const int ops[] = { OP_ADD_NEW, OP_ADD_ALT, OP_ADD_DUP, OP_ADD_ALT_NOBASE, OP_ADD_BADPHONE, OP_ADD_EMPTYWORD, OP_ADD_EMPTYPRON, OP_ADD_NEW_NOUPDATE,
-                                   OP_ADD_ALT_DUP, OP_LOOKUP, OP_SET_G2, OP_ALIGN_T1, OP_START, OP_PROC_A, OP_END, OP_REINIT, OP_ADD_MANY };
+                                   OP_ADD_ALT_DUP, OP_LOOKUP, OP_SET_G2, OP_ALIGN_T1, OP_START, OP_PROC_A, OP_END, OP_REINIT, OP_ADD_MANY, OP_ADD_ONEPHONE };
         SET_N = (int)(sizeof ops / sizeof *ops);
         for (i = 0; i < SET_N; i++)
             SETMAP[i] = ops[i];
@@ -995,7 +999,7 @@ main(int argc, char **argv)
     if (P_C16) {
         /* one reference decoder per addable word, its dictionary FILE holding the base dictionary plus that word */
         int k;
-        for (k = 0; k < 3; k++) {
+        for (k = 0; k < NADDABLE; k++) {
             char saved[sizeof DICT_PATH];
             decoder_t *f;
             FILE *fp;
